@@ -189,7 +189,7 @@ def run_slice(profile, cases, seed, scratch, extra=(), timeout=1800):
                 except Exception:
                     continue
                 last = j
-                if j.get("k") in ("case", "scase"):
+                if j.get("k") in ("case", "scase", "conccase"):
                     last_case = j.get("id")
         if last is None or last.get("k") != "intent" or last_case is None or crashes > 50:
             return None, None, "harness exited %d: %s" % (rc, out[-2000:])
@@ -200,7 +200,7 @@ def run_slice(profile, cases, seed, scratch, extra=(), timeout=1800):
         with open(trace, "a") as f:
             f.write(json.dumps(crash) + "\n")
         start = last_case + 1
-        if start >= cases:
+        if start >= cases or profile in ("conc",):
             break
     st = json.load(open(stats)) if os.path.exists(stats) else {}
     if crashes:
